@@ -16,6 +16,46 @@ def check(ix, rep):
     for m in M.standard_monitors(ix):
         if m.mode == 'offline':
             memo.check_offline_memo_renewed(ix, rep, m)
+    # update() writes the result into the object stored for the output variable (`setattr(var_object_dict[out_var], field, rob)`).  That object is
+    # the library's own as long as the data entry admits *input* variables only (names in ast.free_vars); a wider guard (ast.vars, no guard) lets
+    # a caller's object in under the output variable's name, and the next update writes into it
+    import ast as _ast
+    nde = 0
+    for m in M.standard_monitors(ix):
+        if m.mode != 'online':
+            continue
+        upd = ix.resolve_method(m.cls, 'update')
+        de = ix.resolve_method(m.cls, 'set_variable_to_ast_from_dataset')
+        if upd is None or de is None:
+            continue
+        writes_out = any(isinstance(c, _ast.Call) and isinstance(c.func, _ast.Name) and c.func.id == 'setattr' for c in _ast.walk(upd.node))
+        if not writes_out:
+            continue
+        rep.analysed(de)
+        parents = {}
+        for p_ in _ast.walk(de.node):
+            for c_ in _ast.iter_child_nodes(p_):
+                parents[id(c_)] = p_
+        for st in _ast.walk(de.node):
+            if isinstance(st, _ast.Assign) and any(isinstance(t, _ast.Subscript) and _ast.unparse(t.value) == 'self.ast.var_object_dict' for t in st.targets):
+                nde += 1
+                guarded = False
+                q = st
+                while id(q) in parents:
+                    par = parents[id(q)]
+                    if isinstance(par, _ast.If) and any(q is b for b in par.body):
+                        t = _ast.unparse(par.test).replace(' ', '')
+                        if t.endswith('inself.ast.free_vars') and 'notin' not in t:
+                            guarded = True
+                    q = par
+                slot = '%s:data-entry:inputs-only' % m.kind
+                if guarded:
+                    rep.ok('R-OWN', de.module.rel, de.qual, slot, 'only input variables (ast.free_vars) are stored from the data set', st.lineno)
+                else:
+                    rep.fail('R-OWN', de.module.rel, de.qual, slot, '`%s` is not restricted to the input variables (`... in self.ast.free_vars`): an entry of the data set under the name of '
+                             'the output variable puts the caller\'s object into var_object_dict, and update() then writes the robustness into it with setattr -- the caller\'s data is '
+                             'changed' % _ast.unparse(st)[:60], st.lineno)
+    rep.floor('stores of the online data entry', nde, 2)
     nrs = pure.check_reflective_state(ix, rep)
     rep.floor('functions checked for reflectively reached object state', nrs, 700)
     nfix = G.fixture_selfcheck(rep)
